@@ -1,1 +1,10 @@
 import CGV.Props.C05
+#print axioms CGV.C05.C05_node_graph
+#print axioms CGV.C05.C05_node
+#print axioms CGV.C05.C05_R4_witness
+#print axioms CGV.C05.C05_R6a_witness
+#print axioms CGV.C05.C05_R6b_witness
+#print axioms CGV.C05.matches_chainM
+#print axioms CGV.C05.fold_tailM
+#print axioms CGV.stepNode_mult
+#print axioms CGV.C05.pathGraphAux_append
